@@ -10,8 +10,8 @@ import (
 	"fmt"
 	"math/rand"
 	"os"
-	"strconv"
 	"sort"
+	"strconv"
 	"strings"
 	"sync"
 	"time"
